@@ -150,8 +150,21 @@ def run(ctx):
             a = 10 ** rng.uniform(-2, 1)
             Q = rng.uniform(1, 100)
             mixl = 10 ** rng.uniform(-20, 5)
-            le = LeeMieContribution(lee_mie_radius=a, lee_mie_q=Q, lee_mie_mix_ratio=mixl, lee_mie_bottomP=bot,
-                                    lee_mie_topP=top)
+            if rng.random() < 0.5:
+                # prepared once with an unset (whole-atmosphere) window and other values, then re-configured through
+                # the fitting parameters on the live object
+                le = LeeMieContribution(lee_mie_radius=10 ** rng.uniform(-2, 1), lee_mie_q=rng.uniform(1, 100),
+                                        lee_mie_mix_ratio=10 ** rng.uniform(-20, 5), lee_mie_bottomP=-1, lee_mie_topP=-1)
+                with np.errstate(all='ignore'):
+                    le.prepare(st, wn)
+                fp_ = le.fitting_parameters()
+                for nm_, v_ in (('lee_mie_radius', a), ('lee_mie_q', Q), ('lee_mie_mix_ratio', mixl),
+                                ('lee_mie_bottomP', bot), ('lee_mie_topP', top)):
+                    fp_[nm_][3](v_)
+                ctx.count('lee:re-configured')
+            else:
+                le = LeeMieContribution(lee_mie_radius=a, lee_mie_q=Q, lee_mie_mix_ratio=mixl, lee_mie_bottomP=bot,
+                                        lee_mie_topP=top)
             with np.errstate(all='ignore'):
                 le.prepare(st, wn)
             sig = np.array(le.sigma_xsec)
